@@ -445,6 +445,11 @@ func runC01(sh *core.Shard, a props.Args) {
 		churn := a.Pick(60, 400)
 		fmt.Printf("CASE C01 cluster=%d nodes=%d requests=%d churn=%d seed=%d\n", i, n, reqs, churn, a.CaseSeed(i))
 		f, inc := runC01Cluster(r, n, reqs, churn, sh)
+		if inc != "" {
+			fmt.Printf("RETRY C01 cluster %d after inconclusive: %s\n", i, inc)
+			sh.Count("clusters_retried_after_inconclusive", 1)
+			f, inc = runC01Cluster(rand.New(rand.NewSource(a.CaseSeed(i)+1)), n, reqs, churn, sh)
+		}
 		sh.Eval()
 		if inc != "" {
 			sh.Inconcl("cluster %d: %s", i, inc)
